@@ -24,6 +24,8 @@ import (
 	"github.com/elnormous/contenttype"
 	"github.com/goccy/go-json"
 	"github.com/rs/zerolog"
+
+	"github.com/dadrus/heimdall/internal/heimdall"
 )
 
 var supportedMediaTypes = []contenttype.MediaType{ //nolint:gochecknoglobals
@@ -64,6 +66,10 @@ func errorWriter(options *opts, code int) func(rw http.ResponseWriter, req *http
 			mt   contenttype.MediaType
 			body []byte
 		)
+
+		for name, values := range heimdall.ResponseHeadersFrom(err) {
+			rw.Header()[name] = values
+		}
 
 		if options.verboseErrors {
 			mt, body, err = format(req, err)
